@@ -4,7 +4,7 @@
    is decided by the harness on the implementation and by model correspondence. *)
 From Coq Require Import List NArith.
 Import ListNotations.
-From UV Require Import Py.Val Py.Str Py.UrlLib Ural.Normalize Ural.SuffixTrie Proofs.NormFacts.
+From UV Require Import Py.Val Py.Str Py.UrlLib Ural.Normalize Ural.SuffixTrie Proofs.NormFacts Proofs.C06Facts.
 
 Theorem C06_no_scheme : forall e t ss u r, fingerprint_split e t ss u = Ok r -> scheme r = [].
 Proof. exact fingerprint_no_scheme. Qed.
@@ -14,5 +14,10 @@ Theorem C06_case_irrelevant : forall e t ss u1 u2,
   lower u1 = lower u2 -> fingerprint_url e t ss u1 = fingerprint_url e t ss u2.
 Proof. exact fingerprint_case_irrelevant. Qed.
 
+(* in particular lower-casing the url beforehand changes nothing (str.lower is idempotent: Unicode table checked) *)
+Theorem C06_of_lowered : forall e t ss u, fingerprint_url e t ss (lower u) = fingerprint_url e t ss u.
+Proof. exact fingerprint_of_lowered. Qed.
+
 Print Assumptions C06_no_scheme.
+Print Assumptions C06_of_lowered.
 Print Assumptions C06_case_irrelevant.
